@@ -290,8 +290,9 @@ def _trace_param(fa, op, why):
         if kind == "arg":
             return where
         if kind != "zip" or len(comps) < 1:
-            why.append("operand does not come from a zip of the key slices")
-            return None
+            # an index-based or otherwise restructured loop: not a shape this rule can judge
+            raise EngineError("ACCUM: the key lanes of accumulate_cost are not taken from a zip of the "
+                              "key slices (loop shape not recognised, no verdict)")
         k = comps[-1]
         zt = fa.term(where)
         if k >= len(zt["args"]):
